@@ -58,13 +58,18 @@ def comp_sizes(n, ii, jj, supra):
     return lab, sizes
 
 
+EXACT_ZERO = [False]  # set by oracle(): integer-valued data and equal group sizes (or a paired test)
+
+
 def near(t, thresh):
     """a statistic within the float margin of the threshold cannot be judged - except the exact tie 0 == 0: equal group means
     give exactly 0.0 in any implementation, and 'exceeds' is strict"""
     f = np.isfinite(t)
     d = np.abs(t[f] - thresh)
     close = d < MARGIN
-    if thresh == 0:
+    if thresh == 0 and EXACT_ZERO[0]:
+        # equal group means give exactly 0.0 in any implementation only when the sums are exact and divided by the same n:
+        # integer-valued data with equal group sizes (or paired differences). Otherwise 0 vs 1e-17 is rounding luck.
         close &= (t[f] != 0.0)
     if thresh < 0 and np.isnan(t).any():
         return True  # an undefined statistic (0/0) against a negative threshold: bct's convention is 0, the property is silent
@@ -80,6 +85,7 @@ def oracle(x, y, thresh, k, tail, paired, out, trace, unordered=None):
     xm = x[ii, jj, :].astype(np.float64)
     ym = y[ii, jj, :].astype(np.float64)
     UNDECIDABLE[0] = 0
+    EXACT_ZERO[0] = bool((paired or nx == ny) and np.all(xm == np.round(xm)) and np.all(ym == np.round(ym)) and max(np.abs(xm).max(), np.abs(ym).max()) < 2 ** 40)
     t = tstats(xm, ym, tail, paired)
     if UNDECIDABLE[0]:
         return [], 'zero_variance_separation'
@@ -284,6 +290,7 @@ def execute(case, mode, fn=None, label='nbs_bct'):
         pr['rejected:' + str(exc)[:30]] = 1
         # 'Unsuitable threshold' must mean: no connection exceeds the threshold
         UNDECIDABLE[0] = 0
+        EXACT_ZERO[0] = False
         t = observed(x, y, p['thresh'], p['tail'], p['paired'])
         if not near(t, p['thresh']) and not UNDECIDABLE[0]:
             any_supra = bool(np.any(t[np.isfinite(t)] > p['thresh']) or np.any(t == np.inf))
